@@ -32,7 +32,7 @@ def P(pid, rules, technique, decides, not_decided, assumptions=(),
     }
 
 
-P("C01", ["R08", "R09", "R10", "R11", "R12", "R13c", "R17", "R07", "R34", "R39", "R41"],
+P("C01", ["R08", "R09", "R10", "R11", "R12", "R13c", "R17", "R07", "R34", "R39", "R41", "R04"],
   "typestate abstract interpretation (dirty/clean fields), carry-loop "
   "symbolic agreement, unit-of-measure inference",
   "R08 in TimePoint.__add__ every incremented time/day field is followed by "
@@ -90,7 +90,7 @@ P("C03", ["R13ab", "R11", "R04", "R07", "R12", "R39"],
   "cycle is the right tool and is outside this family.",
   [], ["definition table MODE_DEF (from the property text)"])
 
-P("C04", ["R12", "R14", "R15", "R32", "R17", "R08", "R09", "R10", "R41"],
+P("C04", ["R12", "R14", "R15", "R32", "R17", "R08", "R09", "R10", "R41", "R04"],
   "unit-of-measure inference, def-use derivation, order-agreement checks",
   "R12 the Duration returned by TimePoint - TimePoint is built from "
   "days/hours/minutes/seconds keywords only, each fed a value of that "
@@ -359,7 +359,7 @@ P("C19", ["R30", "R20", "R32", "R12"],
    "outside the handler (an environment variable, not an argument) - noted"],
   [])
 
-P("C20", ["R08", "R14", "R09", "R10", "R12", "R23", "R13c"],
+P("C20", ["R08", "R14", "R09", "R10", "R12", "R23", "R13c", "R36", "R46"],
   "typestate abstract interpretation of the search loops",
   "(thin) R08 in each of the seven in-scope search loops of add_truncated "
   "the incremented field is normalised by _tick_over() before the loop "
